@@ -733,3 +733,21 @@ func genDatagram(r *rand.Rand, i int) []byte {
 	}
 	return raw
 }
+
+// genStringifyArg (C17): any packet kind, including packets with empty and nil lists and extended reports with
+// every block kind; stringify must terminate without panicking.
+func genStringifyArg(r *rand.Rand, i int) Packet {
+	if i%4 == 0 {
+		x := govcXR(r, i/4)
+		return &x
+	}
+	if i%16 == 1 {
+		return &ExtendedReport{}
+	}
+	return govcPacket(r, i%15)
+}
+
+func genXRPtr(r *rand.Rand, i int) *ExtendedReport {
+	x := govcXR(r, i)
+	return &x
+}
